@@ -728,6 +728,55 @@ impl Mutator<u32> for PMu32 {
     }
 }
 
+/// Map over a long vector (a whole population of genomes is mapped in ordinary use): every
+/// element in order, one draw each from the shared stream, stop at the first failing element -
+/// for a million elements as for three. Nothing in a combinator may recurse per element.
+fn long_vectors(seed: u64, rep: &mut Report) {
+    struct Tick {
+        fail_at: Option<usize>,
+        calls: Rc<std::cell::Cell<usize>>,
+    }
+    impl ec_core::operator::Composable for Tick {}
+    impl Operator<u32> for Tick {
+        type Output = u64;
+        type Error = ProbeMutErr;
+        fn apply<R: Rng + ?Sized>(&self, x: u32, rng: &mut R) -> Result<u64, ProbeMutErr> {
+            let k = self.calls.get();
+            self.calls.set(k + 1);
+            let w = rng.next_u64();
+            if self.fail_at == Some(k) {
+                return Err(ProbeMutErr(w));
+            }
+            Ok(w ^ u64::from(x))
+        }
+    }
+    for (len, fail_at) in [(1_000usize, None), (200_000, None), (1_000_000, None), (1_000_000, Some(999_999usize)), (300_000, Some(7))] {
+        vh_core::shard::set_context(format!("C14 map over a vector of {len} elements, failing element {fail_at:?}"));
+        let input: Vec<u32> = (0..len as u32).collect();
+        let calls = Rc::new(std::cell::Cell::new(0usize));
+        let op = Tick { fail_at, calls: calls.clone() };
+        let mut rng = TraceRng::new(mix(seed, len as u64));
+        let mut reference = rng.clone();
+        let out = catch(|| Identity.then_map(op).apply(input.clone(), &mut rng).map_err(|e| e.to_string()));
+        rep.eval();
+        rep.count("map-over-long-vector");
+        rep.distinct(fnv_str(&format!("longvec{len}{fail_at:?}")));
+        let expected_calls = fail_at.map_or(len, |f| f + 1);
+        let want: Vec<u64> = (0..expected_calls).map(|i| reference.next_u64() ^ i as u64).collect();
+        let problem = match (&out, fail_at) {
+            (Err(p), _) => Some(format!("panic: {p}")),
+            (Ok(Ok(v)), None) => (v.len() != len || *v != want).then(|| format!("{} results, expected {len} (element i = draw i xor i)", v.len())),
+            (Ok(Ok(_)), Some(f)) => Some(format!("element {f} fails but the map succeeded")),
+            (Ok(Err(_)), None) => Some("no element fails but the map failed".to_string()),
+            (Ok(Err(_)), Some(_)) => None,
+        };
+        let problem = problem.or_else(|| (calls.get() != expected_calls).then(|| format!("the operator was applied {} times, expected {expected_calls}", calls.get()))).or_else(|| (rng.fingerprint() != reference.fingerprint()).then(|| "the shared stream is not where one draw per applied element leaves it".to_string()));
+        if let Some(why) = problem {
+            rep.violation("C14/map-over-long-vector", || json!({"elements": len, "failing_element": fail_at, "why": why}));
+        }
+    }
+}
+
 pub fn run(args: &Args) -> i32 {
     let per = args.tier.pick(300_000usize, 5_000_000usize);
     let mut rep = run_shards(64, args.threads, 64 << 20, |s| {
@@ -745,6 +794,7 @@ pub fn run(args: &Args) -> i32 {
     let mut extra = Report::new();
     static_shapes(args.seed, &mut extra);
     wrappers(args.seed, &mut extra);
+    long_vectors(args.seed, &mut extra);
     rep.merge(extra);
     rep.finish(
         args,
